@@ -1,1 +1,22 @@
-//! Shared helpers for the vkip check parts.
+//! Shared helpers for the vkip check parts (C15, C16).
+
+pub mod grammar;
+pub mod oracle;
+pub mod sup;
+pub mod tok;
+pub mod walker;
+
+/// Reduces a parser error message to its *reason*: positions, snippets and
+/// numbers removed. Used only to count distinct parser reactions.
+pub fn reaction_key(message: &str) -> String {
+    let first = message.lines().next().unwrap_or("");
+    let reason = match first.find(": expected ") {
+        Some(i) => &first[i + 2..],
+        None => first,
+    };
+    let reason = match reason.find(", found ") {
+        Some(i) => &reason[..i],
+        None => reason,
+    };
+    reason.chars().filter(|c| !c.is_ascii_digit()).collect()
+}
